@@ -112,6 +112,8 @@ func strSliceVal(ss []string) value {
 	return r
 }
 
+var gbkT types.Type = types.NewNamed(types.NewTypeName(0, nil, "gbkEncoding", nil), types.NewStruct(nil, nil), nil)
+
 var errorT types.Type = types.NewNamed(types.NewTypeName(0, nil, "errorString", nil), types.NewStruct(nil, nil), nil)
 
 func mkError(msg string) value {
